@@ -193,6 +193,7 @@ type Frame struct {
 	depth    int
 	closure  *CL
 	specCtx  string
+	locals   map[*ssa.Alloc]Val // non-escaping local variables kept as values
 }
 
 type nameAddr struct {
@@ -230,6 +231,10 @@ func (f *Frame) clone() *Frame {
 	n.loopOld = map[int]Heap{}
 	for k, v := range f.loopOld {
 		n.loopOld[k] = v
+	}
+	n.locals = make(map[*ssa.Alloc]Val, len(f.locals))
+	for k, v := range f.locals {
+		n.locals[k] = v
 	}
 	n.parent = f.parent.clone()
 	return &n
